@@ -207,6 +207,14 @@ package mail
 //@   ensures[C07:nothing-in-clear] mandatory(c) ==> world.clearcmds == old(world.clearcmds)
 //@   ensures[C07:mandatory-means-tls] err == nil && mandatory(c) ==> client.tls
 //@ at mail.Client.DialToSMTPClientWithContext mail.Client.auth#1 before assert[C07:tls-before-auth] mandatory(c) ==> client.tls
+// a setter that rejects its input leaves the address lists exactly as they were (same lists, same elements)
+//@ pred ahkept(m *mail.Msg, k string) = (k in m.addrHeader) == old(k in m.addrHeader) && ((k in m.addrHeader) ==> m.addrHeader[k] == old(m.addrHeader[k]))
+//@ func mail.Msg.SetAddrHeader (header, values) (err)
+//@   requires[C06:wf] m != nil
+//@   ensures[C06:rejected-leaves-untouched] err != nil ==> ((forall k string :: ahkept(m, k)) && kept("A.*netmail.Address"))
+//@   ensures[C06:replaces-only-that-header] forall k string :: k != header ==> ahkept(m, k)
+//@   ensures[C06:all-values-taken] (err == nil && header != "From") ==> ((header in m.addrHeader) && len(m.addrHeader[header]) == len(values))
+//@   loop 1 invariant[C06:untouched] freshslice(addresses) && kept("A.*netmail.Address") && 0 <= rangeindex + 1 && rangeindex + 1 <= len(values) && len(addresses) == rangeindex + 1
 
 // ---------------------------------------------------------------------------
 // C20  SendError reflects the server's verdict (classification functions)
